@@ -139,6 +139,7 @@ typedef struct {
     size_t first_op[2], n_ops[2];   /* op ranges per thread (after the definition prefix) */
     size_t ndefs;
     int late_defs, rejected_defs, early_calls;
+    int full_close;           /* the queue is filled to the last byte just before jls_twr_close while the writer thread is starved */
     int close_race; size_t race_first, race_n;   /* calls of thread 1 issued while thread 0 is inside jls_twr_close */
     char feat[200];
 } tprog_t;
@@ -151,6 +152,12 @@ static void build_tprog(tprog_t *tp, rng_t *r, const char *focus) {
     tp->qsize = RNG_PICK(r, qs);
     tp->flags = rng_chance(r, 1, 2) ? JLS_TWR_FLAG_DROP_ON_OVERFLOW : 0;
     tp->nthreads = rng_chance(r, 1, 2) ? 2 : 1;
+    /* close on a queue that has no room even for the CLOSE message, writer thread starved for longer than the send
+     * timeout: close has to keep trying (the join would never return without the message) */
+    if (!strcmp(focus, "c07") && rng_chance(r, 1, 10)) {
+        static const uint32_t fq[] = {160, 200, 256, 384, 512};
+        tp->full_close = 1; tp->qsize = RNG_PICK(r, fq); tp->flags = JLS_TWR_FLAG_DROP_ON_OVERFLOW; tp->nthreads = 1;
+    }
     prog_add_source(p, 1, "twr-src");
     uint16_t sig_of[2][3]; int nsig_of[2] = {0, 0};
     const dtype_t *types[2][3];
@@ -178,7 +185,8 @@ static void build_tprog(tprog_t *tp, rng_t *r, const char *focus) {
         int64_t ts = th * 1000000;
         /* a signal defined while streaming (the definition call runs in the application thread, concurrently
          * with the writer thread), and definition calls that the writer rejects */
-        int late_at = rng_chance(r, 1, 3) ? (int) rng_range(r, 2, nops / 2) : -1;
+        int late_at = (!tp->full_close && rng_chance(r, 1, 3)) ? (int) rng_range(r, 2, nops / 2) : -1;
+        if (tp->full_close) nops = (int) rng_range(r, 0, 12);
         const dtype_t *late_t = &DTYPES[rng_below(r, 15)];
         int early = late_at > 0 && rng_chance(r, 1, 2);   /* sample calls that name the late signal before it is defined: to be refused */
         for (int q = 0; q < nops; ++q) {
@@ -258,6 +266,7 @@ static void build_tprog(tprog_t *tp, rng_t *r, const char *focus) {
             } else if (kind < 92) {
                 o = prog_add(p, OP_OMIT); o->id = sid; o->enable = (uint32_t) rng_below(r, 2);
             } else {
+                if (tp->full_close) continue;   /* a flush under starvation would use up the unfair window */
                 if (!flush_heavy && !rng_chance(r, 1, 2)) { --q; continue; }
                 /* marker + flush */
                 o = prog_add(p, OP_USER); o->meta = 0xABC; o->stype = JLS_STORAGE_TYPE_BINARY; o->dsize = 16; o->dseed = rng_u64(r); o->thread = (uint8_t) th; o->expect_reject = 9;  /* 9 = marker */
@@ -265,6 +274,18 @@ static void build_tprog(tprog_t *tp, rng_t *r, const char *focus) {
             }
             o->thread = (uint8_t) th;
             if (flush_heavy && rng_chance(r, 1, 4)) { op_t *m = prog_add(p, OP_USER); m->meta = 0xABC; m->stype = JLS_STORAGE_TYPE_BINARY; m->dsize = 16; m->dseed = rng_u64(r); m->thread = (uint8_t) th; m->expect_reject = 9; op_t *f = prog_add(p, OP_FLUSH); f->thread = (uint8_t) th; }
+        }
+        if (tp->full_close) {
+            /* one- and two-sample calls until nothing fits any more (dropped at once: DROP_ON_OVERFLOW) */
+            const dtype_t *t = types[th][0];
+            int64_t base = 0;
+            for (size_t z = 0; z < p->nsig; ++z) if (p->sig[z].def.signal_id == sig_of[th][0]) base = p->sig[z].def.sample_id_offset;
+            int nb = (int) (tp->qsize / 36 + 8);
+            for (int q = 0; q < nb; ++q) {
+                op_t *o = prog_add(p, OP_FSR); o->id = sig_of[th][0]; o->thread = (uint8_t) th;
+                uint32_t n = q < nb / 2 ? 2 : 1; if (t->bits < 8) n = (uint32_t) (8 / t->bits) * n;
+                o->sid = base + pos[0]; o->n = n; o->vseed = rng_u64(r); pos[0] += n;
+            }
         }
         tp->n_ops[th] = p->n - tp->first_op[th];
     }
@@ -284,6 +305,7 @@ static void build_tprog(tprog_t *tp, rng_t *r, const char *focus) {
     }
     snprintf(tp->feat, sizeof(tp->feat), "q=%u|drop=%d|threads=%d|late-def=%d|rej-def=%d|early=%d", tp->qsize, tp->flags ? 1 : 0, tp->nthreads, tp->late_defs > 0, tp->rejected_defs > 0, tp->early_calls > 0);
     if (tp->close_race) snprintf(tp->feat + strlen(tp->feat), sizeof(tp->feat) - strlen(tp->feat), "|close-race");
+    if (tp->full_close) snprintf(tp->feat + strlen(tp->feat), sizeof(tp->feat) - strlen(tp->feat), "|close-on-full-queue");
 }
 
 /* ------------------------------ execution -------------------------------------------- */
@@ -415,6 +437,7 @@ static void run_case(uint64_t idx, void *vctx) {
     if (cfg.policy != POL_STARVE_CONSUMER && cfg.policy != POL_STARVE_PRODUCER && cfg.time_jump_prob > 0.5) cfg.time_jump_prob = 0.2;
     { static const int64_t uf[] = {2, 8, 30, 60}; cfg.unfair_until_ns = (1 + RNG_PICK(&r, uf)) * 1000000000LL; }
     if (tp.close_race && g_controlled) { cfg.policy = POL_STARVE_CONSUMER; cfg.time_jump_prob = 0; cfg.unfair_until_ns = 3600LL * 1000000000LL; }
+    if (tp.full_close && g_controlled) { cfg.policy = POL_STARVE_CONSUMER; cfg.time_jump_prob = 1.0; cfg.unfair_until_ns = 9LL * 1000000000LL; }
     g_closing = 0; g_main_done = 0; g_t1_done = 0;
     char schedfeat[96];
     snprintf(schedfeat, sizeof(schedfeat), "%s|jump=%.2f", g_controlled ? POL_NAME[cfg.policy] : "real-threads", g_controlled ? cfg.time_jump_prob : 0.0);
